@@ -1,5 +1,6 @@
 import Tickit.Model.EvLoop
 import Tickit.Model.EvLoopMulti
+import Tickit.Model.EvLoopFb
 import Tickit.Model.EvLoopSpec
 import Tickit.Gen.EvLoop
 import Tickit.Driver.Common
@@ -101,8 +102,9 @@ def showSet (l : List Int) : String :=
   let m := SIGS.filter l.contains
   if m.isEmpty then "-" else ",".intercalate (m.map toString)
 
-def trailer (st : St) : String :=
-  s!"; b={showSet st.blocked} h={showSet st.handled} p={showSet st.kpending}"
+def trailer (st : St) (fb : Bool := false) : String :=
+  s!"; b={showSet st.blocked} h={showSet st.handled} p={showSet st.kpending}" ++
+  (if fb then (if st.pipesMade > 0 then s!" q={st.pipeBytes}" else " q=-") else "")
 
 def ubName : Ub → String
   | .timerInsertWalk => "tickit_watch_timer_at_tv walks t->timers through a freed timer"
@@ -129,7 +131,7 @@ def ubOwner : Ub → Nat
   | .sigLoopThis => 18
   | _ => 17
 
-def showObs (st : St) (op : Op) (dead : Bool) (leaks : List Nat) : String :=
+def showObs (st : St) (op : Op) (dead : Bool) (leaks : List Nat) (fb : Bool := false) : String :=
   let evs := String.join (st.log.reverse.map fun e => showEv e ++ " ")
   let cut (crash : String) : String := if st.log.isEmpty then crash else evs ++ " <cut>"
   match st.status with
@@ -143,7 +145,7 @@ def showObs (st : St) (op : Op) (dead : Bool) (leaks : List Nat) : String :=
     | _ =>
       if dead && !isNew op then "dead"
       else
-        evs ++ "ok " ++ trailer st
+        evs ++ "ok " ++ trailer st fb
 
 /-! ### the engine -/
 
@@ -151,15 +153,63 @@ structure DSt where
   m : World
   s : Spec.SSt
   started : Bool
+  /-- the history runs in the self-pipe configuration (`new … fb`): `m.st` is a state of Model/EvLoopFb.lean -/
+  fb : Bool := false
 
 def cfgOfSource : Config :=
   { ioFlagMask := Gen.EvLoop.ioFlagMask, timersPop := Gen.EvLoop.timersPop, errnoSaved := Gen.EvLoop.errnoSaved,
     pendingInit := Gen.EvLoop.pendingInit, reventsCleared := Gen.EvLoop.reventsCleared,
     invokeTypeSaved := Gen.EvLoop.invokeTypeSaved, sigSnapshot := Gen.EvLoop.sigSnapshot,
     procSnapshot := Gen.EvLoop.procSnapshot, laterCancelMarks := Gen.EvLoop.laterCancelMarks,
-    processLinked := Gen.EvLoop.processLinked }
+    processLinked := Gen.EvLoop.processLinked, sigpipeViaInvoke := Gen.EvLoop.sigpipeViaInvoke }
+
+/-- One operation line in the self-pipe configuration (one instance, number 0; Model/EvLoopFb.lean). -/
+def stepFb (d : DSt) (ts : List String) (impl : String) : DSt × String × String :=
+  let wop := parseWOp ts
+  let op := match wop with | .op o => o | _ => .bad
+  let named := match wop with | .op _ => false | _ => true
+  let other := match wop with | .inst i => i ≠ 0 | .use i => i ≠ 0 | _ => false
+  let st0 : St := if isNew op then Fb.build cfgOfSource else d.m.st
+  let dead := !named && !st0.alive
+  let st : St :=
+    if isNew op then st0
+    else match wop with
+      | .op o => Fb.applyOp st0 o
+      | .inst _ =>
+        if other || !st0.isOk then { st0 with log := [] }
+        else if st0.alive then { st0 with log := [] }
+        else Fb.buildOn { st0 with log := [] }
+      | .use _ => { st0 with log := [] }
+  let leaks := Tickit.EvLoop.leaked st
+  let obs :=
+    if other then (match st.status with | .ok => "bad-op" | _ => showObs st .bad false [] true)
+    else if named then showObs st (.clock 0) false [] true
+    else showObs st op dead leaks true
+  let why := match st.status with
+    | .ub .sigLoopThis =>
+      if cfgOfSource.sigpipeViaInvoke then ubName .sigLoopThis
+      else "on_sigpipe_readable (self-pipe signal fallback of tickit.c) reads this->next of a signal watch its callback cancelled and freed"
+    | .ub x => ubName x
+    | .killed s => s!"killed by signal {s}"
+    | _ =>
+      if op = .finish then
+        ", ".intercalate (leaks.map fun a =>
+          let x := st.getW a
+          s!"{Spec.kindName x.type} {x.slot} was never released")
+      else ""
+  let owner := match st.status with
+    | .ub x => ubOwner x
+    | _ => 0
+  let (s, verdict) := Spec.step d.s wop (toks impl) why owner
+  let s := if isNew op then { s with fb := true } else s
+  ({ m := { d.m with st := st }, s := s, started := true, fb := true }, obs, verdict)
 
 def step (d : DSt) (ts : List String) (impl : String) : DSt × String × String :=
+  -- `new [Cnn] fb` starts a history in the self-pipe configuration
+  let startsFb := ts.head? = some "new" && ts.contains "fb"
+  let startsNew := ts.head? = some "new"
+  if startsFb || (d.fb && !startsNew) then stepFb d (ts.filter (· ≠ "fb")) impl else
+  let d := { d with fb := false }
   let wop := parseWOp ts
   let op := match wop with | .op o => o | _ => .bad
   let named := match wop with | .op _ => false | _ => true
@@ -182,7 +232,7 @@ def step (d : DSt) (ts : List String) (impl : String) : DSt × String × String 
     | .ub x => ubOwner x
     | _ => 0
   let (s, verdict) := Spec.step d.s wop (toks impl) why owner
-  ({ m := w, s := s, started := true }, obs, verdict)
+  ({ m := w, s := s, started := true, fb := false }, obs, verdict)
 
 def engine : Engine :=
   { σ := DSt, init := { m := { st := { cfg := cfgOfSource } }, s := Spec.init, started := false }, step := step }
